@@ -267,5 +267,20 @@ PROPS["C08"] = dict(
                  "comment attachment is compared per top-level declaration, not per owner node (the parser derives the owner from layout)"],
 )
 
+PROPS["C12"] = dict(
+    pkg="c12",
+    tools={"cue": "repo:cmd/cue"},
+    timeout_quick=1500,
+    subs=[
+        dict(name="cli", test="TestCLI", quick=70, thorough=6000, shards=16, shrinktime="90s"),
+    ],
+    technique="rapid-generated data packages and CLI flag sets run through the cue binary built from the working tree; round trip export -> independent reader (encoding/json, go.yaml.in/yaml/v3, pelletier/go-toml/v2 used directly) and export -> cue import -> export --out json; exit-status oracle for non-concrete and erroneous packages",
+    level_text="exploration: ground-truth data trees (adversarial strings/keys, both number kinds; TOML-safe subset for TOML) written as CUE by an independent renderer into 1-2 files with or without a package clause, exported with --out or -o file.ext, optionally --escape and -e path; the exported text is read by an independent reader and must equal the ground truth; importing it back and exporting JSON must reproduce the original JSON; non-concrete and conflicting packages must exit non-zero.",
+    level_note="trusted: the independent decoders, dgen's CUE renderer, process exit codes; each case runs 4-6 cue processes in a scratch directory",
+    rule="case = tree x encoding {json,yaml,toml,cue} x flags {--out | -o file, --escape, -e path, package vs file arguments, 1 or 2 files} x {ok, non-concrete, conflicting}. Non-trivial = a non-default flag, a non-ASCII string, a key that is not a plain identifier, or an object inside a list.",
+    assumptions=["YAML strings covered by C11's known findings (F10 F11 F20 F34a F47 F48) are excluded here too when the target encoding is YAML",
+                 "TOML: null values are never generated in the gated search (known finding F12: silently dropped); integers within int64"],
+)
+
 NOT_APPLICABLE = {}
 HOOK_COMMITS = []
